@@ -11,4 +11,4 @@ def run(ctx):
         "TornDetect: a torn journal slot / metadata block fails its checksum or equals the old or the new image (DESIGN.md section 2) — a hypothesis, not an axiom",
         "the abstract disk (Feox.Proto.Disk) is related to bytes by the Lean reader Feox.Fmt.recoverImage, itself compared with the real recovery on every crash image of this run",
         "faults are injected at the I/O hook (synchronous path; io_uring disabled), not in the kernel",
-    ], lambda op: op.startswith("dur ") or op.startswith("txn "))
+    ], lambda op: op.startswith("dur ") or op.startswith("txn "), pre_finish=lambda c, cov: __import__("kv_engine").inv_stage(c, cov))
